@@ -29,7 +29,10 @@ RULE = ('specifications generated from one PRNG state: all 16 (+16 with an exist
         're-inspecting the other side; session 3: every bare number (length, duration, rate, interval, t0) is handed over as python int/float, '
         'np.int16/32/64, np.float64 or a 0-d array (a function of its value), explicit falsy starts (0, 0.0, zero time objects) are always present, '
         'an equal specification is rebuilt after the first result was changed in place, and for every program the np.shares_memory classes of '
-        'all live axes are compared with the buffer layer of the model (op heapparts)')
+        'all live axes are compared with the buffer layer of the model (op heapparts); round 4: ~95 cases per run (own PRNG stream, every tier) at '
+        'lengths 1e5+-{0..3}, 2^17+-1, 2e5+-2, 1e6+-{0..10}: TimeSeries(data_m, time=axis_n) with m = n and m = n+-{1,2,3,10} (1-d / 2-d data, 4 intervals, '
+        'several units, t0 given or not), time= with an explicit rate that fills the axis exactly / 7x that rate / data one sample off, and length-vs-duration '
+        'specifications (exact, over-determined, existing axis cut to a length)')
 ASSUMPTIONS = ['numpy int64/float64 arithmetic is IEEE-754 binary64 / two\'s complement (F64 model checked bit-for-bit in C01)',
                'np.arange(int64 start, stop, step) has length ceil(fl((stop-start)/step)) (monitored by op arange_len in this run)',
                'total extent |t0| + n*interval stays below 2^62 ps; intervals are at least 1 ps; lengths are python ints >= 1']
@@ -741,13 +744,16 @@ def make_series_from_time_case(sp):
         if sp['unit'] != 'default':
             kw['time_unit'] = None if sp['unit'] == 'none' else sp['unit']
         return kw
-    impl = construct_seq(build_args, lambda kw: T.TimeSeries(series_data(sp['m'], 1), **kw), canon_series,
+    nd = sp.get('ndim', 1)
+    impl = construct_seq(build_args, lambda kw: T.TimeSeries(series_data(sp['m'], nd), **kw), canon_series,
                          'ST %r' % sorted((k, str(v)) for k, v in sp.items()))
     line = 'C02 series_from_time %s %d %s %s' % (tok_axis_obj(axis), sp['m'], tok(sp['t0']),
                                                 {'default': 's'}.get(sp['unit'], sp['unit']))
     meta = {'kind': 'series_from_time', 'spec': sp,
             'axis_obs': {k: v for k, v in axis_obs(axis).items() if k not in ('affine', 'S')}}
-    return Case(line, impl, 'series/from-time' + ('' if sp['m'] == sp['axis'][3] else '/length-mismatch'),
+    # round 4: the series' OWN duration attribute (not part of canon_series) — judged for the plain `time=` call only
+    meta['series_dur'] = call(lambda: int(T.TimeSeries(series_data(sp['m'], nd), **build_args(True)).duration))
+    return Case(line, impl, 'series/from-time' + ('/large' if sp.get('large') else '') + ('' if sp['m'] == sp['axis'][3] else '/length-mismatch'),
                 cmp=cmp_intended, meta=meta, nontrivial=impl.startswith('ok'))
 
 
@@ -763,7 +769,8 @@ def make_series_from_time_ov_case(sp):
         return None
     au, at0, adt, an = sp['axis']
     unit = {'none': au, 'default': 's'}.get(sp['unit'], sp['unit'])      # explicit None: the axis' unit; not given: the constructor's default, seconds
-    eq = {'n': an, 'ndim': 1, 't0': sp['t0'] if sp['t0'] is not None else ('T', au, int(at0)), 'interval': sp['interval'], 'rate': sp['rate'],
+    dl = sp.get('m', an)          # round 4: data of ANOTHER length than the axis, with an explicit rate that reconciles them exactly — or not
+    eq = {'n': dl, 'ndim': 1, 't0': sp['t0'] if sp['t0'] is not None else ('T', au, int(at0)), 'interval': sp['interval'], 'rate': sp['rate'],
           'duration': None, 'unit': unit}
 
     def build_args(fresh):
@@ -774,8 +781,14 @@ def make_series_from_time_ov_case(sp):
         if sp['unit'] != 'default':
             kw['time_unit'] = None if sp['unit'] == 'none' else sp['unit']
         return kw
-    impl = construct_seq(build_args, lambda kw: T.TimeSeries(series_data(an, 1), **kw), canon_series,
+    impl = construct_seq(build_args, lambda kw: T.TimeSeries(series_data(dl, 1), **kw), canon_series,
                          'STO %r' % sorted((k, str(v)) for k, v in sp.items()))
+    if dl != an:
+        # model: `mkSeriesFromTimeRate` (the length check on the explicit rate, then the equivalent specification)
+        line = 'C02 series_from_time_rate %s %d %s %s %s' % (tok_axis_obj(axis), dl, tok(sp['t0']), tok(sp['rate']),
+                                                            {'default': 's'}.get(sp['unit'], sp['unit']))
+        return Case(line, impl, 'series/from-time/explicit-rate', cmp=cmp_intended,
+                    meta={'kind': 'series_from_time_ov', 'spec': sp, 'equiv': eq}, nontrivial=True)
     line = 'C02 series %d %s %s %s %s %s' % (an, tok(eq['t0']), tok(eq['interval']), tok(eq['rate']), tok(None), unit)
     return Case(line, impl, 'series/from-time/override-' + ('interval' if sp['interval'] is not None else 'rate'), cmp=cmp_intended,
                 meta={'kind': 'series_from_time_ov', 'spec': sp, 'equiv': eq}, nontrivial=impl.startswith('ok') and an >= 2)
@@ -1280,6 +1293,140 @@ def judge_heap(c):
 
 
 
+# ------------------------------------------------------------------ round 4 (class L9): LARGE lengths, where a comparison of lengths decides
+LARGE_N = [10**5, 10**5 + 1, 10**5 - 1, 10**5 + 2, 10**5 - 2, 10**5 + 3, 10**5 - 3, 2**17, 2**17 + 1, 2**17 - 1, 2 * 10**5, 2 * 10**5 + 2,
+           2 * 10**5 - 2, 10**6] + [10**6 + d for d in range(1, 11)] + [10**6 - d for d in range(1, 11)]
+LARGE_DT = [10**9, 5 * 10**11, 2 * 10**12, 333333333333]        # 1 ms, 0.5 s, 2 s (whole ps) and the interval of 3 Hz
+
+
+_F7 = {}
+
+
+def finding7_cases_enabled():
+    """finding 7 (round 4): the length check of `TimeSeries(data, time=axis …)` forms the reconciling rate with the AXIS' conversion factor
+    (samples per <axis unit>) and compares it with a rate in Hz — right on seconds axes only.  The cases that show it (clauses
+    `series/from-time/unit-not-seconds/…`) are generated once the finding is recorded in known_findings.json (then: KNOWN-FINDING) or the
+    tree is repaired (`proposed_fixes/C02-from-time-rate-in-hz.diff`; then: ordinary green cases) — until the lead has done one of the two
+    they are left out, so that the unchanged tree stays green (the model already describes the intended check, in Hz)."""
+    if 'on' not in _F7:
+        import common
+        T = ts()
+        rec = common.match_known('series/from-time/unit-not-seconds/explicit-rate/reconciling-rate-refused', common.load_findings(PID)) is not None
+        r = call(lambda: 'ok %d' % len(T.TimeSeries(np.zeros(2), time=T.UniformTime(length=4, sampling_rate=1000.0, time_unit='ms'),
+                                                    sampling_rate=500.0).time))
+        _F7['on'] = rec or r == 'ok 2'
+    return _F7['on']
+
+
+def large_cases(seed, tier):
+    """a few cases per run (rotated by the seed; x6 in the thorough tier) at lengths 1e5 … 1e6 (+- a few samples): every accepted /
+    refused combination in which a comparison of LENGTHS (or of a length with a duration) decides.  Expectations are exact integers;
+    the model lines are the ordinary ops (the model never lays the samples out)."""
+    import common
+    rng = common.make_rng(PID, seed, 'large-lengths')
+    reps = 2 if tier == 'quick' else 12
+    out = []
+
+    def add(c):
+        if c:
+            c.meta['large'] = True
+            out.append(c)
+
+    def t0_for(unit):
+        return rng.choice([None, None, ('i', rng.randint(-3, 3)), ('f', 1.5), ('T', rng.choice(['s', 'ms', 'us']), rng.randint(-10**13, 10**13)), ('i', 0)])
+
+    def from_time(n, m, au, dt, su, t0, at0, ndim):
+        add(make_series_from_time_case({'axis': (au, int(at0), int(dt), int(n)), 'm': int(m), 't0': t0, 'unit': su, 'ndim': ndim, 'large': True}))
+
+    # (a) TimeSeries(data_m, time=axis_n): the fixed witnesses (seconds, no explicit rate: the case a relative tolerance lets through) ...
+    from_time(10**5, 10**5 + 1, 's', 10**9, 'default', None, 0, 1)
+    from_time(10**5, 10**5, 's', 10**9, 'default', None, 0, 1)
+    from_time(10**6 + 1, 10**6, 's', 5 * 10**11, 'default', ('i', -3), -3 * 10**12, 2)
+    from_time(2 * 10**5 + 2, 2 * 10**5, 's', 333333333333, 's', None, 15 * 10**11, 1)
+    for _ in range(reps):
+        # ... every offset, at a length where an off-by-k is within 1e-5 of the length (and at one where it is not)
+        for k in (-10, -3, -2, -1, 1, 2, 3, 10):
+            for pick in (0, 1):
+                m = rng.choice([x for x in LARGE_N if x * 1e-5 >= abs(k)] if pick == 0 else LARGE_N)
+                au = 's' if pick == 0 else rng.choice(['s', 'ms', 'ms', 'us', 'm'])
+                su = rng.choice(['default', 'default', 'none', au, 'ms'])
+                from_time(m + k, m, au, rng.choice(LARGE_DT), su, t0_for({'default': 's', 'none': au}.get(su, su)),
+                          rng.choice([0, 0, rng.randint(-10**13, 10**13)]), rng.choice([1, 1, 2]))
+        # ... and equal lengths: accepted, m samples, duration m * dt (series and axis)
+        for _ in range(4):
+            m = rng.choice(LARGE_N)
+            au = rng.choice(['s', 's', 'ms', 'm'])
+            su = rng.choice(['default', 'none', au, 'ms'])
+            from_time(m, m, au, rng.choice(LARGE_DT), su, t0_for({'default': 's', 'none': au}.get(su, su)),
+                      rng.choice([0, rng.randint(-10**13, 10**13)]), rng.choice([1, 2]))
+        # (b) `time=` + an explicit rate, data of another length: a rate that makes the data fill the duration of the axis exactly (down-sampling
+        # by f on whole-ps intervals) is accepted; 7 x the rate, or the right rate with data one sample too long / short, is refused.
+        # (seconds axes only: on an axis in another unit the code compares with a quotient in that unit and refuses every rate — observed, notes)
+        for _ in range(3):
+            base_hz, adt = rng.choice([(1000, 10**9), (2, 5 * 10**11), (500, 2 * 10**9)])
+            f = rng.choice([d for d in (2, 4, 5, 8, 10) if base_hz % d == 0 or base_hz == 1000])
+            if base_hz == 2:
+                f = 2
+            m = rng.choice([10**5, 10**5 + 1, 125000, 2 * 10**5, 2**17])
+            r_ok = base_hz / float(f)
+            rate_ok = rng.choice([('f', r_ok), ('F', r_ok)] + ([('i', base_hz // f)] if base_hz % f == 0 else []))
+            ax = ('s', rng.choice([0, 2 * 10**12]), adt, m * f)
+            su = rng.choice(['default', 'none', 's'])
+            t0 = t0_for('s')
+            for dl, rate in ((m, rate_ok), (m, (rate_ok[0], rate_ok[1] * 7)), (m + rng.choice([-1, 1]), rate_ok)):
+                add(make_series_from_time_ov_case({'axis': ax, 'm': dl, 'interval': None, 'rate': rate, 't0': t0, 'unit': su}))
+        # (b') the same on axes whose unit is NOT seconds (finding 7: the code forms the reconciling rate in samples per <axis unit>): the right
+        # rate in Hz is accepted, the "per axis unit" number (Hz x factor(unit)/factor(s)) and 7 x the rate are refused; and a plain `time=` call
+        # whose data are factor(s)/factor(unit) times longer than the axis (the coincidence of the per-unit quotient with the rate in Hz) is refused
+        if finding7_cases_enabled():
+            au, per = rng.choice([('ms', 1000), ('us', 10**6), ('ms', 1000)])
+            adt = rng.choice([10**9, 2 * 10**9] if au == 'ms' else [10**6, 4 * 10**6])
+            base_hz = 10**12 // adt
+            f = rng.choice([2, 4, 5, 10])
+            m = rng.choice([10**5, 10**5 + 1, 125000, 40])
+            r_ok = base_hz / float(f)
+            ax = (au, rng.choice([0, 2 * 10**12]), adt, m * f)
+            su = rng.choice(['default', 'none', au])
+            for dl, rate in ((m, ('f', r_ok)), (m, ('F', r_ok)), (m, ('f', r_ok / per)), (m, ('f', r_ok * 7)), (m + 1, ('f', r_ok))):
+                c = make_series_from_time_ov_case({'axis': ax, 'm': dl, 'interval': None, 'rate': rate, 't0': t0_for(au), 'unit': su})
+                if c:
+                    c.clause = 'series/from-time/unit-not-seconds/explicit-rate'
+                    add(c)
+            n0 = rng.choice([100, 101, 250]) if au == 'ms' else 1
+            c = make_series_from_time_case({'axis': (au, 0, adt, n0), 'm': n0 * per, 't0': None, 'unit': rng.choice(['default', 'none']), 'ndim': 1, 'large': True})
+            if c:
+                c.clause = 'series/from-time/unit-not-seconds/length-mismatch'
+                add(c)
+        # (c) specifications where a length meets a duration: n samples exactly, duration n * dt; over-determined ones stay refused
+        for _ in range(2):
+            n = rng.choice(LARGE_N)
+            u = rng.choice(['s', 'ms', 's', 'us'])
+            dt = rng.choice([d for d in LARGE_DT if d * (n + 2) < LIM // 4])
+            I, t0 = ('T', rng.choice(['s', 'ms', 'ps']), dt), t0_for(u)
+            base = {'axis': None, 'length': None, 'duration': None, 'rate': None, 'interval': None, 't0': t0, 'unit': u}
+            specs = [dict(base, length=n, interval=I),
+                     dict(base, length=n, duration=('T', 'ms', n * dt)),                     # interval = duration / n, exactly dt
+                     dict(base, duration=('T', 's', n * dt + rng.choice([0, 1, -1, dt // 2, 1 - dt])), interval=I),   # count = multiples of dt before the end
+                     dict(base, length=n, rate=('F', 1e12 / dt) if dt != 333333333333 else ('i', 3)),
+                     dict(base, length=n, duration=('T', 's', n * dt), interval=I),          # over-determined (consistent or not): refused
+                     dict(base, length=n + rng.choice([-1, 1]), duration=('T', 's', n * dt), interval=I),
+                     dict(base, length=n, duration=('T', 's', n * dt), rate=('F', 1e12 / dt)),
+                     dict(base, axis=(u, 0, dt, n + rng.choice([-1, 0, 1])), length=n),      # an existing axis cut / extended to a length
+                     dict(base, axis=(u, 0, dt, n), duration=('T', 's', (n - 1) * dt + 1))]
+            rng.shuffle(specs)
+            for sp in specs[:6]:
+                if predicted_sizes_ok(sp):
+                    add(make_uniform_case(sp))
+            sspecs = [{'n': n, 'ndim': rng.choice([1, 2]), 't0': t0, 'interval': I, 'rate': None, 'duration': None, 'unit': u},
+                      {'n': n, 'ndim': 1, 't0': t0, 'interval': None, 'rate': None, 'duration': ('T', 'ms', n * dt), 'unit': u},
+                      {'n': n, 'ndim': 1, 't0': None, 'interval': I, 'rate': None, 'duration': ('T', 's', n * dt), 'unit': 'default'},
+                      {'n': n, 'ndim': 1, 't0': t0, 'interval': I, 'rate': ('F', 1e12 / dt), 'duration': None, 'unit': u}]     # over-determined
+            rng.shuffle(sspecs)
+            for sp in sspecs[:2]:
+                add(make_series_case(sp))
+    return out
+
+
 def cases(rng, tier, seed):
     T = ts()
     k = {'quick': 1, 'thorough': 30}[tier]
@@ -1550,6 +1697,8 @@ def cases(rng, tier, seed):
         if dur > 0 and dur // dt <= 10**5 + 2:
             ln = len(np.arange(np.int64(0), np.int64(dur), np.int64(dt), dtype=np.int64))
             out.append(Case('C02 arange_len %d %d' % (dur, dt), 'ok %d' % ln, 'numpy/arange_len'))
+    # --- round 4 (class L9): a few LARGE lengths per run, where a comparison of lengths decides (own PRNG stream)
+    out += large_cases(seed, tier)
     cases.skipped = skipped
     return out
 
@@ -1758,6 +1907,20 @@ def check_case(c):
                        duration, dur_inherit, n_div)
         return fail(*r) if r else None
     if kind == 'series_from_time_ov':
+        sp = m['spec']
+        au, at0, adt, an = sp['axis']
+        if sp.get('m', an) != an:
+            # data of another length than the axis: accepted iff the explicit rate makes the data fill EXACTLY the duration of the
+            # axis (exact rationals: m / r seconds = n * dt picoseconds), refused with ValueError otherwise — at every length
+            fills = Fr(sp['m']) * 10**12 / Fr(float(sp['rate'][1])) == an * adt
+            if not fills:
+                return None if c.impl == 'err ValueError' else fail(
+                    'length-mismatch-accepted' if c.impl.startswith('ok') else 'raises-' + c.impl.split()[-1],
+                    'data length %d on an axis of %d x %d ps with sampling_rate %r (which does not fill the duration): %s' % (
+                        sp['m'], an, adt, sp['rate'][1], c.impl[:60]))
+            if not c.impl.startswith('ok '):
+                return fail('reconciling-rate-refused', 'data length %d at %r Hz fills the %d x %d ps of the axis exactly, refused: %s' % (
+                    sp['m'], sp['rate'][1], an, adt, c.impl))
         kind, m = 'series', dict(m, spec=m['equiv'])
     if kind in ('series', 'series_from_time'):
         sp = m['spec']
@@ -1783,7 +1946,8 @@ def check_case(c):
         if sp['m'] != ax['n']:
             # the documented behaviour: data of another length than the axis is an error unless a new rate is given
             coincidence = ax['rate'] == float(sp['m'] * FACTOR[ax['unit']]) / ax['dur'] if ax['dur'] else False
-            if coincidence:
+            # (exact integers: such a coincidence needs |m - n| / n below binary64 resolution; never for the lengths generated)
+            if coincidence and abs(sp['m'] - ax['n']) * 2**50 < ax['n']:
                 return None
             return None if c.impl == 'err ValueError' else fail('length-mismatch-accepted', 'data length %d vs axis length %d accepted' % (sp['m'], ax['n']))
         if not c.impl.startswith('ok '):
@@ -1792,6 +1956,10 @@ def check_case(c):
         o = s['time']
         unit = {'default': 's', 'none': ax['unit']}.get(sp['unit'], sp['unit'])
         r = judge_axis(o, unit, sp['t0'], ax['t0'], ('T', ax['unit'], ax['dt']), None, None, sp['m'], None, None, sp['m'])
+        if r is None and 'series_dur' in m and m['series_dur'] != sp['m'] * ax['dt']:
+            # the series' own duration covers exactly its m intervals (plain `time=` call, equal lengths: the axis' own duration)
+            r = ('series-duration-not-n-intervals', 'series.duration = %s ps, its %d intervals of %d ps cover %d ps' % (
+                m['series_dur'], sp['m'], ax['dt'], sp['m'] * ax['dt']))
         return fail(*r) if r else None
     if kind == 'to_period':
         P = Fr(10**12) / Fr(m['hz'])
@@ -1946,6 +2114,8 @@ def replay(d):
         c = Case('C02 freq', impl, d['clause'], meta=m)
     else:
         return None
+    if c and d.get('clause') and kind in ('series_from_time', 'series_from_time_ov'):
+        c.clause = d['clause']      # (the large / unit-not-seconds streams re-label the clause of the ordinary case makers)
     f = check_case(c) if c else None
     # the replay is about the recorded symptom; another (recorded) finding on the same input is not it
     return f if (f and f.key == d.get('key', f.key)) else None
